@@ -176,3 +176,9 @@ package netconf
 //@ func (*Driver).sendRPC$1 [C08]
 //@   requires done != nil && !closed(done)
 //@   at call! getMessage#1 assert #the-call-polls-the-store-for-its-own-message-id arg0 == m.MessageID
+
+// ---- C08: the reply store is only touched under its lock ------------------------------------------------------------------
+// (the same discipline does NOT hold for the subscription store: the BETA method EstablishPeriodicSubscription writes
+// d.subscriptions[id] without subscriptionsLock while the reader goroutine appends under it - a data race outside the
+// twenty properties, recorded as an observation in DESIGN.md I.6, not claimed here)
+//@ guarded [C08] Driver.messages by Driver.messagesLock
